@@ -100,6 +100,9 @@ pub struct Prepared {
     /// Recon body regions (offset, length) of every frame.
     pub bodies: Vec<Vec<(usize, usize)>>,
     pub expected: Vec<CanonMsg>,
+    /// Every length field of a frame sits at a fixed offset from the start of the frame (changing one length cannot
+    /// move another).
+    pub fixed_positions: bool,
 }
 
 // ---------------------------------------------------------------------------------------------
@@ -1154,7 +1157,8 @@ pub fn prepare(pair: &Pair, msgs: &[Msg]) -> Result<Prepared, String> {
         bodies.push(w.bodies);
         start = *end;
     }
-    Ok(Prepared { bytes, ends, fields, bodies, expected })
+    let fixed_positions = pair.family == "downlink.map_notification";
+    Ok(Prepared { bytes, ends, fields, bodies, expected, fixed_positions })
 }
 
 pub fn decode(pair: &Pair, msgs: &[Msg], input: DriveIn) -> Result<DriveOut, String> {
